@@ -220,6 +220,10 @@ def run(ctx):
              ("iparam2d", 2, [("addw", [D1], [S1, P1])], 0, 0, 9), ("constn", 2, [("addw", [D1], [S1, S2])], 0, 8, 4),
              ("acc2d", 2, [("copyw", [T1], [S1]), ("accw", [A1], [T1]), ("copyw", [D1], [T1])], 0, 0, 11),
              ("fparam2d", 4, [("andf", [D1], [S1, P1])], 1, 0, 13)]
+    # constant-n programs (the loop is laid out for exactly n elements): lengths around the vector widths
+    for cn, w, op in ((1, 1, "addb"), (3, 2, "subw"), (7, 1, "avgub"), (16, 1, "addusb"), (17, 2, "mullw"), (31, 4, "addl"),
+                      (33, 1, "xorb"), (64, 2, "addssw"), (65, 1, "maxub"), (100, 4, "subl"), (128, 1, "addb"), (255, 1, "subb")):
+        extra.append(("constn%d" % cn, w, [(op, [D1], [S1, S2])], 0, cn, 2 * cn))
     for tpl, w, insns, ptype, cn, seed in extra:
         k += 1
         fns.append(make_fn(k, tpl, w, None, None, None, 1, seed, opinfo, ctx.rng, ptype=ptype, const_n=cn, insns=insns))
